@@ -151,6 +151,9 @@ func genHistory(t *rapid.T, maxLen int, garbageCtl bool) hCase {
 		c.Cfg.TLS = "starttls"
 	}
 	c.Cfg.AllowInsecureAuth = rapid.IntRange(0, 3).Draw(t, "insecure") != 0
+	if rapid.IntRange(0, 2).Draw(t, "shortlines") == 0 {
+		c.Cfg.MaxLineLength = 64 // every command of the alphabet fits; some payloads have longer LF-free runs
+	}
 	c.Script.LMTPSession = c.Cfg.LMTP && rapid.Bool().Draw(t, "lmtpsession")
 	c.Script.AuthSession = rapid.IntRange(0, 3).Draw(t, "authsession") != 0
 	c.Script.Mechs = []string{"PLAIN"}
@@ -248,9 +251,9 @@ func genHistory(t *rapid.T, maxLen int, garbageCtl bool) hCase {
 		case "rcpt", "rcpt-bad":
 			cmd.Arg = "r" + rapid.SampledFrom(names).Draw(t, "name")
 		case "data":
-			cmd.Body = c02Defuse(genHBody(t))
+			cmd.Body = c02Defuse(genHBody(t, true))
 		case "bdat", "bdat-badlast":
-			cmd.Body = genHBody(t)
+			cmd.Body = genHBody(t, false)
 			cmd.Last = op == "bdat" && rapid.IntRange(0, 2).Draw(t, "last") == 0
 			if cmd.Last {
 				txn, nr, chunked = false, 0, false
@@ -269,8 +272,14 @@ func genHistory(t *rapid.T, maxLen int, garbageCtl bool) hCase {
 	return c
 }
 
-func genHBody(t *rapid.T) []byte {
-	switch rapid.IntRange(0, 4).Draw(t, "bodykind") {
+func genHBody(t *rapid.T, forData bool) []byte {
+	switch rapid.IntRange(0, 5).Draw(t, "bodykind") {
+	case 5:
+		if forData {
+			// the line limit applies to lines of a DATA message by design
+			return []byte("short line\r\n")
+		}
+		return []byte(strings.Repeat("z", 90)) // BDAT payload: LF-free, longer than the short line limit
 	case 0:
 		return []byte{}
 	case 1:
